@@ -57,6 +57,13 @@ def gen_sequence(rng, fam, res, thorough):
     if fam == "klm" and rng.random() < 0.2:
         n0 = 0
     n0 = min(n0, hi - n)
+    if fam == "klm" and res == "lac" and n > 3 and rng.random() < 0.25:
+        # the unsigned KLM field across 32767 -> 32768 (where a signed 16-bit view changes sign), few lines on one side
+        side = rng.choice([1, 2, 30, 49]) if rng.random() < 0.7 else rng.randint(1, n - 1)
+        side = min(side, n - 1)
+        n0 = 32768 - side if rng.random() < 0.5 else 32768 - (n - side)
+        if kind not in ("clean", "corrupt", "first-corrupt"):
+            kind = rng.choice(["clean", "corrupt"])
     top = kind == "top-of-range"
     if top:
         # the pass ends exactly at the largest number the format admits (maxl-1, or the field's maximum)
@@ -158,7 +165,9 @@ def judge(ctx, fmt, raw, info, surv, err):
         n0 = info["n0"]
         if not (fam == "pod" and n0 < 1):
             want = [(v, i) for i, v in enumerate(nums) if abs(v - (n0 + i)) <= 500]
-            if surv != want:
+            # POD: the survivors may be rotated so that the lowest number comes first (the property says so)
+            rotated = fam == "pod" and len(surv) == len(want) and any(surv == want[k:] + want[:k] for k in range(1, len(want)))
+            if surv != want and not rotated:
                 extra = sorted(set(want) - set(surv))
                 missing = sorted(set(surv) - set(want))
                 # the listed finding: POD's leading-line step drops every record stored before the one that holds the
@@ -170,9 +179,12 @@ def judge(ctx, fmt, raw, info, surv, err):
                 if extra:
                     what += "record %d (number %d, expected %d, deviation %d <= 500) was removed" % (
                         extra[0][1], extra[0][0], n0 + extra[0][1], abs(extra[0][0] - n0 - extra[0][1]))
-                else:
+                elif missing:
                     what += "record %d (number %d, deviation %d > 500) was kept" % (
                         missing[0][1], missing[0][0], abs(missing[0][0] - n0 - missing[0][1]))
+                else:
+                    what += "the expected records survive, but not once each in the file's order (%s.. instead of %s..)" % (
+                        surv[:5], want[:5])
                 ctx.violation(what, payload, cls=("exact500:pod-first-record" if first_case else "exact500:%s" % fam))
 
 
